@@ -20,7 +20,7 @@ PROPS["C08"] = dict(
     level_note="Trusted: the ~25-line reference reassembler and the encoder in harness/c08.cpp. Upper layers are well-formed (libtins re-serializes them identically); fragments never carry DF; "
                "no overlapping fragments; two datagrams never use the same (id, src, dst) at the same time. Key = (id, ordered (src,dst)) as in RFC 791 (without the protocol, as the statement says).",
     phases=[dict(name="exhaustive", harness="c08.cpp", flavor="asan", mode="exhaustive", cases=dict(quick=1016, thorough=2040), args=dict(reversed=1)),
-            dict(name="random", harness="c08.cpp", flavor="asan", mode="random", cases=dict(quick=300000, thorough=6000000), args=dict(reversed=1))],
+            dict(name="random", harness="c08.cpp", flavor="asan", mode="random", cases=dict(quick=300000, thorough=4000000), args=dict(reversed=1))],
     rule="case = (set of datagrams (id, src, dst, protocol, link layer, options, payload, partition at multiples of 8), arrival order with duplicates, interleaving, unfragmented/non-IP packets); "
          "distinct = distinct (datagram shapes, ordered event list); non-trivial = every history contains >=1 fragmented datagram and is checked after each packet; "
          "exhaustive part: 16..40-byte payloads, all partitions x all orders x <=2 duplicates, and all interleavings of two small datagrams",
